@@ -124,6 +124,28 @@ def check_model(rep, drv, gen, rng, m, text, c, npts=3, fixed_points=None):
                 break
         if failing:
             break
+    if failing is None and pts:
+        # the rhs generated with remove_unused computes the same derivatives (what is removed must not be needed)
+        code_ru = family.try_generate(rep, c, text, remove_unused=True)
+        if isinstance(code_ru, Exception):
+            failing = (f"code generation with remove_unused raises {type(code_ru).__name__}: {str(code_ru)[:120]}", pts[0][0], None)
+        else:
+            ns_ru, fns_ru = impl.exec_module(code_ru), impl.export_functions(code_ru)
+            for pt, ref, S in pts:
+                isx, st, ps = pipeline.inputs_sx(lay, pt)
+                with np.errstate(all="ignore"):
+                    try:
+                        rv = impl.call_numpy(ns_ru["rhs"], fns_ru["rhs"]["args"], pt["t"], st, ps)
+                    except Exception as ex:  # noqa: BLE001
+                        failing = ("rhs generated with remove_unused raises " + repr(ex)[:200], pt, None)
+                        break
+                for i, s_ in enumerate(lay["sorted_states"]):
+                    if not close(float(rv[i]), ref[f"d{s_}_dt"], S):
+                        failing = (f"rhs generated with remove_unused: rhs[{i}] = {float(rv[i])!r} but d{s_}_dt = {ref[f'd{s_}_dt']!r}", pt, None)
+                        break
+                if failing:
+                    break
+            rep.count("rhs_with_remove_unused_compared")
     if failing:
         what, pt, name = failing
         gen_txt = fns["monitor_values"]["lets"].get(name) if name else None
